@@ -336,3 +336,42 @@ export const BULK_PROGRAM = `export const Parsers = parse.buildParsers<{
   G: Record<string, number>; H: { a: number }; I: Map<string, number>; J: Set<number>; K: string | number[]; L: { items: (string | boolean[])[] } & { a: number[] };
 }>();
 `;
+
+// Objects that only look like built-ins: they inherit from a built-in prototype without having its
+// internal slots (walking them throws a TypeError), subclasses, built-ins with extra own
+// properties, and built-ins beff has no type for. C03 offers them to validators of Map / Set / Date /
+// typed arrays / unknown / object types, bare and wrapped; only the no-throw and agreement clauses
+// are judged on them (whether they are members is left open).
+export const IMPOSTOR_PROGRAM = `type M = Map<string, number>; type S = Set<string>; type D = Date; type U8 = Uint8Array; type F64 = Float64Array;
+type Unk = unknown; type O = { a?: string }; type R = Record<string, unknown>; type A = unknown[]; type T = [unknown, ...unknown[]];
+type UM = M | S | D | U8 | string; type UO = { m: M | null } | { s: S };
+type IM = { m: M } & { m: Map<string, 1 | 2> };
+type UU = unknown | { a: 1 }; type OU = { x: { a: 1 } | unknown };
+type DU = { k: "a", m: M } | { k: "b", s: S };
+type UU2 = { x: { a: 1, b?: unknown } | { a: 1, c?: unknown } };
+type MM = Map<M, S>; type SS = Set<M | S | D>;
+export const Parsers = parse.buildParsers<{M:M,S:S,D:D,U8:U8,F64:F64,Unk:Unk,O:O,R:R,A:A,T:T,UM:UM,UO:UO,IM:IM,UU:UU,OU:OU,DU:DU,UU2:UU2,MM:MM,SS:SS}>();
+`;
+export function impostorValues() {
+  function* gen() {
+    yield 1;
+  }
+  return {
+    fakeMap: Object.create(Map.prototype), fakeSet: Object.create(Set.prototype), fakeDate: Object.create(Date.prototype),
+    fakeU8: Object.create(Uint8Array.prototype), fakeF64: Object.create(Float64Array.prototype), fakeArray: Object.create(Array.prototype),
+    fakeRegExp: Object.create(RegExp.prototype), fakePromise: Object.create(Promise.prototype), fakeError: Object.create(Error.prototype),
+    fakeString: Object.create(String.prototype), fakeNumber: Object.create(Number.prototype), fakeBigInt: Object.create(BigInt.prototype), fakeSymbol: Object.create(Symbol.prototype),
+    fakeFunction: Object.create(Function.prototype), fakeAB: Object.create(ArrayBuffer.prototype), fakeDV: Object.create(DataView.prototype),
+    fakeWeakMap: Object.create(WeakMap.prototype), fakeTypedArray: Object.create(Object.getPrototypeOf(Uint8Array.prototype)),
+    error: new Error("e"), regexp: /x/g, ab: new ArrayBuffer(4), sab: new SharedArrayBuffer(4), dv: new DataView(new ArrayBuffer(4)), weakmap: new WeakMap(), weakset: new WeakSet(),
+    promise: Promise.resolve(1), genobj: gen(), args: (function () { return arguments; })(1, 2), url: new URL("http://a/b"), usp: new URLSearchParams("a=1"), weakref: new WeakRef({}),
+    boxedBig: Object(1n), boxedSym: Object(Symbol("s")), mapIter: new Map([[1, 2]]).entries(), setIter: new Set([1]).values(),
+    classExtMap: new (class extends Map {})([["a", 1]]), classExtSet: new (class extends Set {})(["a"]), classExtDate: new (class extends Date {})(0), classExtArr: new (class extends Array {})(2), classExtU8: new (class extends Uint8Array {})(2),
+    mapOwnProps: Object.assign(new Map([["a", 1]]), { a: "x", m: new Map() }), arrOwnProps: Object.assign([1], { a: "x" }), fnProps: Object.assign(() => 1, { a: "x", k: "a" }), dateProps: Object.assign(new Date(0), { a: 1 }),
+    buffer: Buffer.from("ab"), detached: (() => { const a = new Uint8Array(4); structuredClone(a.buffer, { transfer: [a.buffer] }); return a; })(),
+    nullProtoNested: Object.assign(Object.create(null), { x: Object.assign(Object.create(null), { a: 1 }) }),
+    math: Math, json: JSON, intl: new Intl.NumberFormat(), reflect: Reflect, atomics: Atomics,
+    mapOfFakes: new Map([["k", Object.create(Map.prototype)]]), setOfFakes: new Set([Object.create(Set.prototype)]), realMapKeyedByFake: new Map([[Object.create(Map.prototype), new Set()]]),
+  };
+}
+export const IMPOSTOR_WRAPS = { raw: (v) => v, inM: (v) => ({ m: v }), inS: (v) => ({ s: v }), inX: (v) => ({ x: v }), inArr: (v) => [v], asMapVal: (v) => new Map([["k", v]]), asMapKey: (v) => new Map([[v, new Set()]]), asSetItem: (v) => new Set([v]), k_a_m: (v) => ({ k: "a", m: v }), k_b_s: (v) => ({ k: "b", s: v }), x_a_b: (v) => ({ x: { a: 1, b: v, c: v } }) };
